@@ -29,7 +29,16 @@ def naive_test_ok(g, P):
             saw_none = True
         elif isinstance(x, Sym) and x.op == 'method' and \
                 x.args[1] == 'utcoffset':
-            pass
+            # tzinfo.utcoffset(value) or value.utcoffset(): the offset *of
+            # this value* (utcoffset(None) asks a different question: zones
+            # with a varying offset answer None)
+            recv, margs = x.args[0], x.args[2]
+            on_tz = isinstance(recv, Sym) and recv.op == 'attr' and \
+                recv.args[0] is P and recv.args[1] == 'tzinfo' and \
+                len(margs) == 1 and margs[0] is P
+            on_value = recv is P and len(margs) == 0
+            if not (on_tz or on_value):
+                return False
         else:
             return False
     return saw_none
@@ -152,6 +161,99 @@ def decimal_sign_rule(ctx):
                                        if okk else 'is built from the '
                                        'coefficient digits only: the sign '
                                        'of the value never reaches it')))
+    return out
+
+
+def timestamp_decode_rule(ctx):
+    """The decoder reads every wire value the encoder can produce for an
+    instant up to 2106 (0 .. 2**32 - 1) as seconds, unchanged.
+    -> [(construct, ok, why)]"""
+    from . import isets
+    ts = ctx.prog.module('decode').functions.get('timestamp')
+    if ts is None:
+        return []
+    D = pairs.dec_desc(ctx, ts)
+    out = []
+    for i, dp in enumerate(D.paths):
+        v = dp.value
+        reads = [r for r in dp.reads]
+        calls = [t for t in T.subterms(v)
+                 if t.op == 'extcall' and t.args[0].endswith(
+                     'fromtimestamp')]
+        if not calls or not reads:
+            out.append(('decode.timestamp path %d' % (i + 1), False,
+                        'no fromtimestamp(read) conversion found in %s' %
+                        T.show(v)[:100]))
+            continue
+        operand = calls[0].args[1][0] if calls[0].args[1] else None
+        read = reads[0]
+        read = getattr(read, 'term', read)
+        # values of the read for which the operand is the read itself
+        def same(t):
+            if t is read:
+                return isets.ISet.all()
+            if isinstance(t, Sym) and t.op == 'cond':
+                g, a, b = t.args
+                try:
+                    gs = isets.guard_set(g, read)
+                except isets.NotInterval:
+                    return isets.ISet.empty()
+                return gs.inter(same(a)).union(
+                    gs.complement().inter(same(b)))
+            return isets.ISet.empty()
+        s_ = same(operand)
+        want = isets.ISet.range(0, (1 << 32) - 1)
+        missing = want.inter(s_.complement())
+        out.append(('decode.timestamp seconds range', missing.is_empty(),
+                    'wire values read as seconds unchanged: %s%s' % (
+                        s_, '' if missing.is_empty() else
+                        '; %s (instants up to 2106) are not' % missing)))
+    return out
+
+
+def decimal_accept_rule(ctx):
+    """Acceptance of the decimal encoder: no explicit guard on a return
+    path excludes a scale in 0..255 or an unscaled value in the signed
+    32-bit range.  -> [(construct, ok, why)]"""
+    from . import isets
+    prog = ctx.prog
+    de = prog.module('encode').functions.get('decimal')
+    if de is None:
+        return []
+    E = pairs.enc_desc(ctx, de)
+    out = []
+    want = {0: isets.ISet.range(0, 255),
+            1: isets.ISet.range(-(1 << 31), (1 << 31) - 1)}
+    names = {0: 'scale', 1: 'unscaled value'}
+    union = {0: isets.ISet.empty(), 1: isets.ISet.empty()}
+    seen = {0: False, 1: False}
+    for p in E.paths:
+        flds = [s for s in p.segs if s.kind == 'fld']
+        if len(flds) != 2:
+            continue
+        for j in (0, 1):
+            arg = flds[j].arg
+            if isinstance(arg, int) and not isinstance(arg, Sym):
+                union[j] = union[j].union(isets.ISet.range(arg, arg))
+                seen[j] = True
+                continue
+            if not isinstance(arg, Sym):
+                continue
+            seen[j] = True
+            s_ = isets.ISet.all()
+            for a in p.kn.atoms:
+                if isinstance(a, Sym) and not isets.is_type_atom(a):
+                    s_ = s_.inter(isets.superset(a, arg))
+            union[j] = union[j].union(s_)
+    for j in (0, 1):
+        if not seen[j]:
+            continue
+        missing = want[j].inter(union[j].complement())
+        out.append(('encode.decimal accepted %s' % names[j],
+                    missing.is_empty(),
+                    'guards admit %s' % union[j] if missing.is_empty() else
+                    'guards admit %s: %s in the %s range is refused' %
+                    (union[j], missing, names[j])))
     return out
 
 
